@@ -89,7 +89,10 @@ def rule_V1b(ctx) -> None:
         fn = mod.func(f"Message.{name}")
         loops = [n for n in ast.walk(fn) if isinstance(n, ast.For) and field_loop_roles(from_ast(n.iter), 0) is not None]
         if not loops:
-            raise AnalysisError(f"{name}: per-field loop not found")
+            if any(isinstance(c, ast.Call) and isinstance(c.func, ast.Name) and c.func.id == "getattr" for c in ast.walk(fn)):
+                raise AnalysisError(f"{name}: reads fields with getattr but its per-field loop was not recognised")
+            ctx.proved("V1b", f"{name}:tolerates-unselected-oneof", mod.loc(fn), "no tracked per-field reads (delegates)")
+            continue
         selfname = fn.args.args[0].arg
         bad = []
         n_reads = 0
